@@ -8,6 +8,8 @@ LETTERS = "abcAB"
 def gen_re(rng, depth, charset):
     chars = sorted(charset)
     lits = [c for c in chars if c.isalnum()] or ["a"]
+    if rng.random() < 0.25:
+        lits = lits + [rng.choice("qz9")]      # a symbol the pattern mentions but the character set lacks
     if depth == 0 or rng.random() < 0.25:
         k = rng.random()
         if k < 0.45:
